@@ -22,7 +22,7 @@ func Spec() *evid.Spec {
 		},
 		MinNontrivial: 100,
 		Lanes: []evid.Lane{{
-			Name: "adversarial", Children: evid.Const(16, 16), Cases: evid.Const(70, 3000), TimeoutS: evid.Const(600, 5400),
+			Name: "adversarial", Children: evid.Const(16, 16), Cases: evid.Const(70, 1400), TimeoutS: evid.Const(600, 7200),
 			Setup: func(ch *evid.Child) { ch.Data = qsim.NewEnv() },
 			Run:   run,
 		}},
